@@ -635,6 +635,18 @@ def _random_loci(seed):
                 chain = [e for i, e in enumerate(exons) if i not in two]
             if len(chain) >= 3:
                 pops.append((kind, chain, rng.randint(4, 8)))
+        # a minor variant next to a dominant chain (own generator: earlier seeds keep their loci): the acceptor of one intron moved 8-21 bp
+        # upstream, a micro-exon of 6-12 bp, and a next intron that starts inside the dominant intron - collapsing the similar splice
+        # sites in the intron graph must not fuse the two into an intron no read has
+        rng2 = random.Random(seed * 7 + li)
+        if rng2.random() < .3 and n >= 5:
+            j = rng2.randint(2, n - 2)
+            d_end = exons[j][0] - 1
+            sh, ml = rng2.choice([8, 10, 12, 15, 17, 19, 20, 20, 21]), rng2.randint(6, 12)
+            micro = (d_end - sh + 1, d_end - sh + ml)
+            if micro[1] < d_end and micro[0] > exons[j - 1][1] + 50:
+                pops.append(("known_dominant", list(exons), 10))
+                pops.append(("micro_variant", exons[:j] + [micro] + exons[j + 1:], 4))
         loci.append({"gene": "rndG%d" % li, "strand": strand, "isoforms": iso, "reads": pops})
     return loci
 
@@ -703,7 +715,7 @@ def replay_random_loci(d):
 
 @bounded("C04.random_loci", ["C04", "C03"], shards=8, note="pipeline runs on generated loci (6 per run: random strand, 4-6 exons, 1-3 annotated isoforms, "
          "1-3 read populations: annotated chains, novel combinations of annotated introns, splice sites moved by 15-40 bp, double exon "
-         "skipping; polyA tails), with the generated annotation and annotation-free: the output invariants of C04.pipeline_outputs")
+         "skipping, a minor variant with an acceptor 8-21 bp upstream of the dominant one followed by a micro-exon; polyA tails), with the generated annotation and annotation-free: the output invariants of C04.pipeline_outputs")
 def c04_random_loci(tier, rng):
     n = 2 if tier == "quick" else 20
     base = rng.randrange(10 ** 9)
